@@ -223,6 +223,7 @@ Consumable(s) == s.kind \notin {"buffer", "args"}      \* string elements are no
 ResetT2(i) == Reset(i, "ok", inst[i].seq)
 CloneT2Act(i) ==
   /\ Len(inst) < MaxInst
+  /\ Len(inst) >= 2 => Len(inst[1].seq) <= 1        \* a third instance only for the shortest sources (size of the export)
   /\ IF Cloneable(src) THEN Clone(i, "ok", CloneT2(src, inst[i])) ELSE Clone(i, "none", inst[i])
 
 (* mpt_values_linear / mpt_values_bound: the whole sequence written to a strided array *)
